@@ -16,7 +16,8 @@ var cacheModes = []string{"n", "n", "r", "s", "d", "e"}
 // genHistory emits one random history on one configuration.
 func genHistory(r *hxlib.Run, emit func(hxlib.Case), backend string, shadow bool, cache string, nOps int, st *dbx.CondStats) {
 	rng := r.Rng
-	keys := dbx.Keys(backend)
+	keys, prefixes, universe := dbx.Universe(rng, backend)
+	r.Count("keys:" + universe)
 	sh := "0"
 	if shadow {
 		sh = "1"
@@ -161,7 +162,7 @@ func genHistory(r *hxlib.Run, emit func(hxlib.Case), backend string, shadow bool
 			}
 		case x < 88:
 			sync()
-			lines = append(lines, fmt.Sprintf("query p %s %s", pick(r, dbx.Prefixes), dbx.GenCond(rng, 0, st)))
+			lines = append(lines, fmt.Sprintf("query p %s %s", pick(r, prefixes), dbx.GenCond(rng, 0, st)))
 			read = true
 			r.Count("op:query")
 		case x < 91:
@@ -169,7 +170,7 @@ func genHistory(r *hxlib.Run, emit func(hxlib.Case), backend string, shadow bool
 				continue
 			}
 			sync()
-			lines = append(lines, fmt.Sprintf("purge p %s %s", pick(r, dbx.Prefixes), dbx.GenCond(rng, 0, st)))
+			lines = append(lines, fmt.Sprintf("purge p %s %s", pick(r, prefixes), dbx.GenCond(rng, 0, st)))
 			r.Count("op:purge")
 			if cached {
 				r.Count("op:purge-on-cached-interface")
@@ -199,6 +200,9 @@ func genHistory(r *hxlib.Run, emit func(hxlib.Case), backend string, shadow bool
 	sync()
 	lines = append(lines, "query p - -", "dump")
 	kind := "hist:" + backend + sh + cache
+	if universe != "plain" {
+		kind += ":" + universe + "-keys"
+	}
 	if findingMode {
 		kind += ":batch-behind-cache"
 	}
@@ -358,6 +362,49 @@ func genBoundary(r *hxlib.Run, emit func(hxlib.Case)) {
 	}
 }
 
+// genParkQuery: a running query against concurrent deletes / expiry. n records below `q/`; a query is started and
+// its consumer does not read; once the executor has filled the result buffer the interface deletes (or sets an
+// expiry in the past on) a subset of the records; then the consumer reads to the end (op `pq`, see dbx). The
+// executor can have checked at most capacity + 1 records before the writes began: from the (capacity+2)-th arrival
+// on, no record may itself be marked deleted or carry an expiry in the past. Implementation only.
+func genParkQuery(r *hxlib.Run, emit func(hxlib.Case)) {
+	rng := r.Rng
+	for c := 0; c < r.Budget(16, 160); c++ {
+		b := []string{"h", "b", "f", "g"}[c%4]
+		sh := pick(r, []string{"0", "1"})
+		lines := []string{"cfg " + b + " " + sh, "if p 1 1 n 0 0 0 0"}
+		n := []int{12, 13, 25, 40, 60}[rng.Intn(5)]
+		var keys []string
+		for k := 0; k < n; k++ {
+			key := fmt.Sprintf("q/k%02d", k)
+			keys = append(keys, key)
+			form := pick(r, []string{"T", "J"})
+			lines = append(lines, fmt.Sprintf("put p %s %s 0,0,0,0,0,0 %s", key, form, dbx.GenFields(rng, form, "")))
+		}
+		for round := 0; round < 1+rng.Intn(2); round++ {
+			// records that are still visible: a record is deleted / expires once
+			var sel, rest []string
+			all := round > 0 || rng.Intn(3) == 0
+			for _, k := range keys {
+				if all || rng.Intn(3) != 0 {
+					sel = append(sel, k)
+				} else {
+					rest = append(rest, k)
+				}
+			}
+			keys = rest
+			if len(sel) == 0 {
+				break
+			}
+			op := pick(r, []string{"del", "expire"})
+			lines = append(lines, fmt.Sprintf("pq p %s p %s %s", pick(r, []string{"q/", "q/k", "-"}), op, strings.Join(sel, ",")))
+			r.Count("op:query-vs-" + op + ":" + b)
+		}
+		lines = append(lines, "query p - -", "dump")
+		emit(hxlib.Case{Lines: lines, NonTrivial: true, Kind: "query-vs-delete:" + b, NoModel: true})
+	}
+}
+
 func generate(r *hxlib.Run, emit0 func(hxlib.Case)) {
 	emit := func(c hxlib.Case) {
 		if !dbx.Hung() {
@@ -369,6 +416,7 @@ func generate(r *hxlib.Run, emit0 func(hxlib.Case)) {
 	genIterator(r, emit)
 	genBigPurge(r, emit)
 	genBoundary(r, emit)
+	genParkQuery(r, emit)
 	n := r.Budget(250, 3000)
 	for i := 0; i < n; i++ {
 		for _, backend := range []string{"h", "b", "f", "g"} {
@@ -406,6 +454,10 @@ func monitor(c hxlib.Case, outs []string) (vs []hxlib.Violation) {
 	}
 	o := dbx.NewOracle()
 	for i, l := range c.Lines {
+		if strings.HasPrefix(l, "pq ") {
+			vs = append(vs, monitorPQ(c, outs, i, o)...)
+			continue
+		}
 		o.Step(i, l, outs[i])
 	}
 	seen := map[string]bool{}
@@ -424,6 +476,64 @@ func monitor(c hxlib.Case, outs []string) (vs []hxlib.Violation) {
 	return vs
 }
 
+// monitorPQ: "a query yields exactly the visible records" with the query still running while records are deleted /
+// expire: a record whose hand-over check comes after the delete has returned is not visible and must not be
+// listed. Observable (see genParkQuery): from the (capacity+2)-th arrival on, no listed record is itself marked
+// deleted or expired. (A storage that answers from a snapshot lists the live versions of the snapshot.)
+func monitorPQ(c hxlib.Case, outs []string, i int, o *dbx.Oracle) (vs []hxlib.Violation) {
+	f := strings.Fields(c.Lines[i])
+	out := outs[i]
+	add := func(sig, what string) {
+		vs = append(vs, hxlib.Violation{Sig: sig, What: fmt.Sprintf("op %d %q: %s", i, c.Lines[i], what), Lines: c.Lines[:i+1], Output: outs[:i+1]})
+	}
+	if strings.HasPrefix(out, "PANIC") || out == "HANG" {
+		add("C02:"+strings.Fields(out)[0]+":pq", out)
+		return
+	}
+	pq, ok := dbx.ParsePQ(out)
+	if !ok || len(f) != 6 {
+		add("C02:malformed-output:pq", out)
+		return
+	}
+	skipLock.Lock()
+	skips[fmt.Sprintf("pq:parked=%v:%s", pq.Parked, o.Backend)]++
+	if len(pq.Arrived) > pq.Cap+1 {
+		skips["pq:arrivals-after-the-window:"+o.Backend] += len(pq.Arrived) - pq.Cap - 1
+	}
+	skipLock.Unlock()
+	if pq.Reflag != "ok" {
+		add("C02:write-failed:"+f[4]+":"+o.Backend, out)
+	}
+	for k, t := range pq.Arrived {
+		pt := strings.SplitN(t, "~", 3)
+		var m []string
+		if len(pt) == 3 {
+			m = strings.Split(pt[1], ",")
+		}
+		if len(m) != 6 {
+			add("C02:malformed-output:pq", t)
+			return
+		}
+		deleted := m[3] != "0" && !strings.HasPrefix(m[3], "-")
+		expired := dbx.TsClass(m[2]) == "past"
+		if k >= pq.Cap+1 && (deleted || expired) {
+			add("C02:listed-after-delete:"+o.Backend, fmt.Sprintf("arrival %d of %d (buffer capacity %d), read after the %s had returned, is record %s with metadata %s (deleted / expired): its hand-over check cannot have preceded the %s",
+				k+1, len(pq.Arrived), pq.Cap, f[4], pt[0], pt[1], f[4]))
+			break
+		}
+	}
+	if pq.Reflag == "ok" {
+		for _, k := range strings.Split(f[5], ",") {
+			if f[4] == "del" {
+				o.Step(i, "del "+f[3]+" "+k, "ok")
+			} else {
+				o.Step(i, "setabs "+f[3]+" "+k+" 5", "ok")
+			}
+		}
+	}
+	return vs
+}
+
 var (
 	skips    = map[string]int{}
 	skipLock sync.Mutex
@@ -434,7 +544,7 @@ func main() {
 	defer dbx.Cleanup()
 	hxlib.Main(&hxlib.Harness{
 		Prop:     "C02",
-		Rule: "a case is one history on one configuration (backend hashmap/bbolt/fstree/badger x shadow-delete x cache none/read(256)/read(2)/delayed(256)/delayed(2), interface options incl. Always* flags): 15-85 operations (put, put-new, get, exists, delete, absolute/relative expiry, flag setters, attribute insert, complete PutMany batches incl. an out-of-scope record, query and purge with random key prefixes and condition trees over all operators incl. ill-typed, sub-level and erroneous ones, maintenance with explicit and wall-clock threshold bracketed by raw storage dumps, flush/clear) over 10-15 keys sharing prefixes and path separators; records as typed struct, JSON wrapper (incl. missing and wrong-typed fields) and RAW wrapper, metadata with past/future absolute expiry, relative expiry, deletion stamps; plus regression cases for every repaired defect, iterator hand-over runs (free and with the producer held at the yield point in Finish), a real storage timeout, purges of more than 1000 records on bbolt, and clock-boundary cases (records on all four backends x both delete modes whose expiry time or deletion stamp lies one or two seconds ahead, absolute or through a TTL; the case waits for that second to begin and, within it, runs get*/query/maintenance-or-purge/get*/query per database between two clock readings; implementation only, judged when both readings are the same second: query = the keys get answers, maintenance changes no answer, purge counts and hides exactly those). Every other case runs on the real database package and on the compiled Lean model; outputs are compared line by line; the monitor replays the case on an independent reference map. A case is non-trivial if it wrote and read; distinct by the hash of its lines.",
+		Rule: "a case is one history on one configuration (backend hashmap/bbolt/fstree/badger x shadow-delete x cache none/read(256)/read(2)/delayed(256)/delayed(2), interface options incl. Always* flags): 15-85 operations (put, put-new, get, exists, delete, absolute/relative expiry, flag setters, attribute insert, complete PutMany batches incl. an out-of-scope record, query and purge with random key prefixes and condition trees over all operators incl. ill-typed, sub-level and erroneous ones, maintenance with explicit and wall-clock threshold bracketed by raw storage dumps, flush/clear) over 10-15 keys sharing prefixes and path separators — or, for a quarter of the histories, over 15-25 keys of a special universe (keys that differ only behind a colon inside the key, doubled / leading / trailing colons, space, %, #, ?, *, backslash, ~, ^, dot-led names, multi-byte runes, 200-byte segments, names that are not clean relative paths: ordinary keys on hashmap / bbolt / badger, to be refused by fstree) with query prefixes ending at and around those characters; records as typed struct, JSON wrapper (incl. missing and wrong-typed fields) and RAW wrapper, metadata with past/future absolute expiry, relative expiry, deletion stamps; plus regression cases for every repaired defect, iterator hand-over runs (free and with the producer held at the yield point in Finish), a real storage timeout, purges of more than 1000 records on bbolt, and clock-boundary cases (records on all four backends x both delete modes whose expiry time or deletion stamp lies one or two seconds ahead, absolute or through a TTL; the case waits for that second to begin and, within it, runs get*/query/maintenance-or-purge/get*/query per database between two clock readings; implementation only, judged when both readings are the same second: query = the keys get answers, maintenance changes no answer, purge counts and hides exactly those). Parked-query cases (implementation only): 12-60 records, a query whose consumer does not read until the result buffer is full, then deletes / expiries in the past on a subset, then the consumer reads on: from the (buffer capacity + 2)-th arrival on no listed record is itself deleted or expired. Every other case runs on the real database package and on the compiled Lean model; outputs are compared line by line; the monitor replays the case on an independent reference map. A case is non-trivial if it wrote and read; distinct by the hash of its lines.",
 		Generate: generate,
 		NewExec:  func(*hxlib.Run) hxlib.Exec { return dbx.New(nil) },
 		Monitor:  monitor,
